@@ -16,11 +16,33 @@ from pathlib import Path
 from . import tlc
 
 
+def _first_big_int(x, path="trace"):
+    """(path, value) of the first integer of the JSON value x that does not fit 32 bits, else None"""
+    stack = [(path, x)]
+    while stack:
+        p, v = stack.pop()
+        if isinstance(v, bool):
+            continue
+        if isinstance(v, int):
+            if not -2 ** 31 <= v < 2 ** 31:
+                return p, v
+        elif isinstance(v, dict):
+            stack.extend((f"{p}.{k}", w) for k, w in v.items())
+        elif isinstance(v, (list, tuple)):
+            stack.extend((f"{p}[{i}]", w) for i, w in enumerate(v))
+    return None
+
+
 def validate(ctx, module, cfg, traces, *, label, nstates=None, jvms=8, workers=2, timeout=900, chunk=None):
     """Returns list of verdict dicts {index, prop, impl, pos} for the non-clean traces (index into
     `traces`). Raises tlc.TLCError if TLC could not consume every trace."""
     if not traces:
         return []
+    # TLC's JsonDeserialize wraps integers beyond 32 bits without a word (2^40 + 1 is read as 1): a wrong observed value could
+    # become the right one. Harnesses clamp what they observe; a trace that still carries such a number is a machinery failure.
+    big = _first_big_int(traces)
+    if big is not None:
+        raise tlc.TLCError(f"trace for {module} carries the integer {big[1]} at {big[0]}: beyond 32 bits, TLC would wrap it")
     n = len(traces)
     if chunk is None:
         chunk = max(1, -(-n // jvms))
